@@ -98,7 +98,21 @@ def handle (prop : String) (s : S) (i : Nat) (j : Json) : S × List Json :=
     let (m1, rejected) := ops.foldl (fun (acc : St × List String) op =>
       match step acc.1 op with
       | .ok s' => (s', acc.2)
-      | .error e => (acc.1, (reprStr op ++ " -> " ++ reprStr e) :: acc.2)) (s.model, [])
+      | .error e =>
+        -- the claimed bucket of the virtual denoms is W (see step 3): rewards claimed earlier in the SAME block (masterchef /
+        -- estaking claims, begin-block credits) are not in the previous observation, so a commit of claimed Eden that the
+        -- implementation performed is replayed after crediting the shortfall
+        let retry : Option St := match op with
+          | .commitClaimed a d amt =>
+            if isVirtual d && amt ≥ 0 && acc.1.claimed.get (a, d) < amt then
+              match claimedDelta acc.1 a d (amt - acc.1.claimed.get (a, d)) with
+              | .ok s1 => (match step s1 op with | .ok s2 => some s2 | .error _ => none)
+              | .error _ => none
+            else none
+          | _ => none
+        match retry with
+        | some s2 => (s2, acc.2)
+        | none => (acc.1, (reprStr op ++ " -> " ++ reprStr e) :: acc.2)) (s.model, [])
     -- 3. W: claimed-bucket bookkeeping of virtual denoms and EdenB burns are taken from the observation
     let o := project cm st.obs m1.unc m1.burnt
     let claimedKeys := ((m1.claimed.map (·.1)) ++ (o.claimed.map (·.1))).eraseDups
